@@ -78,6 +78,12 @@ def gen_hash_many(rng, reps, small=False):
                         continue
                     one(n, blocks, rng.choice(counters(n)), incr, rng.choice(ALIGNS), i)
                     i += 1
+        # more than two full batches: loop-back conditions of the 16/8/4-wide main loops (exact multiples,
+        # one more, one less), which the library itself never produces (it passes at most MAX_SIMD_DEGREE inputs)
+        for n in (34, 35, 39, 40, 41, 47, 48, 49, 63, 64, 65, 80, 81):
+            for incr in (0, 1):
+                one(n, 1, rng.choice(counters(n)), incr, rng.choice(ALIGNS), i)
+                i += 1
         # every alignment offset x group-boundary input counts
         for a in ALIGNS:
             for n in (1, 4, 5, 8, 9, 16, 17, 33):
